@@ -14,7 +14,7 @@ ASSUME = ["canonicity on the code is checked edge-wise: normal_form of a diagram
 
 def run(tier, seed, t0):
     cov, rej = _diagapi.run("C06", "J06", tier, seed, t0, invariants=["InvWellTyped", "InvNormalForm"],
-                            drift=True)
+                            drift=True, families=True)
     return core.finish("C06", tier, seed, LEVEL, cov, rej, t0, ASSUME)
 
 
